@@ -43,6 +43,11 @@ M = [
  ("C04__table_odd_entry", "point_mul_table.go", "tbl[i+1].addComplete(&tbl[i], p)", "tbl[i+1].addComplete(&tbl[i], &tbl[0])\n\t\ttbl[i+1].addComplete(&tbl[i+1], &tbl[i/2])\n\t\ttbl[i+1].addComplete(&tbl[i], p)\n\t\tif i == 13 {\n\t\t\ttbl[i+1].doubleComplete(&tbl[6])\n\t\t\ttbl[i+1].addComplete(&tbl[i+1], &tbl[0])\n\t\t}"),
  ("C04__vartime_negate_only_scalar", "point_mul_glv.go", "\tif k2.IsGreaterThanHalfN() == 1 {\n\t\tk2.Negate(k2)\n\t\tpeePrime.Negate(peePrime)\n\t}", "\tif k2.IsGreaterThanHalfN() == 1 {\n\t\tk2.Negate(k2)\n\t\tpeePrime.Negate(pee)\n\t}"),
  ("C04__lookup_off_by_one", "point_mul_table_ref.go", "out.uncheckedConditionalSelect(out, &tbl[i-1], helpers.Uint64Equal(idx, i))\n\t}\n}\n\nfunc lookupAffinePoint", "out.uncheckedConditionalSelect(out, &tbl[i-1], helpers.Uint64Equal(idx, i|8))\n\t}\n}\n\nfunc lookupAffinePoint"),
+ ("C05__nibbles_swapped", "point_mul_table.go", "\t\toddTbls[tblIdx].SelectAndAdd(v, uint64(b>>4))", "\t\toddTbls[tblIdx].SelectAndAdd(v, uint64(b&0xf))"),
+ ("C05__odd_table_index", "point_mul_table.go", "fromIdx := (16 + j<<4) - 1", "fromIdx := (15 + j<<4) - 1"),
+ ("C05__vartime_table_reversed", "point_mul_table.go", "\t\ttbl[ScalarSize-(1+i)].SelectAndAddVartime(v, uint64(b))", "\t\ttbl[i].SelectAndAddVartime(v, uint64(b))"),
+ ("C05__infinity_not_masked", "point_mul_table.go", "return sum.uncheckedConditionalSelect(tmp, sum, isInfinity)", "return sum.uncheckedConditionalSelect(tmp, tmp, isInfinity)"),
+ ("C05__table_file_corrupted", "internal/gentable/point_mul_table.go", "package gentable", "package gentable // (the data file is patched separately)"),
  # harmless refactorings: must stay green
  ("pass__C01__rename_local", "internal/field/field.go", "\tl := helpers.BytesToSaturated(src)\n\n\tdidReduce := reduceSaturated(&l, &l)\n\tfe.uncheckedSetSaturated(&l)\n\n\treturn fe, didReduce", "\tlimbs := helpers.BytesToSaturated(src)\n\n\twasReduced := reduceSaturated(&limbs, &limbs)\n\tfe.uncheckedSetSaturated(&limbs)\n\n\treturn fe, wasReduced"),
  ("pass__C03__commuted_add", "point_projective.go", "\t// t4 := t0 + t1 ; t3 := t3 - t4 ; t4 := Y1 + Z1 ;\n\tt4.Add(t0, t1)\n\tt3.Subtract(t3, t4)\n\tt4.Add(y1, z1)\n\n\t// X3 := Y2 + Z2", "\t// t4 := t0 + t1 ; t3 := t3 - t4 ; t4 := Y1 + Z1 ;\n\tt4.Add(t1, t0)\n\tt3.Subtract(t3, t4)\n\tt4.Add(z1, y1)\n\n\t// X3 := Y2 + Z2"),
